@@ -220,8 +220,8 @@ Param(op, pn, pd, r, a) ==
   Store(r, MeaningP(op, Rat(pn, pd), reg[a]), MeaningP(op, Rat(pn, pd), dev[a]),
         GuardOf(MeaningP(op, Rat(pn, pd), Loc(1, a)), <<reg[a]>>), Call(op, r, <<a>>, <<>>, <<pn, pd>>))
 
-(* RE-ACTIVATION.  After any prefix of calls a temporary (holding a result of    *)
-(* order 0, or of the program's order in n variables, or nothing yet) is         *)
+(* RE-ACTIVATION.  After any non-empty prefix of calls a temporary that holds a  *)
+(* result (of order 0, or of the program's order in n variables) is               *)
 (* declared variable i of n again: SetVariable(i, n, order), Variables(order) on  *)
 (* a list containing it, or ResetDerivatives + SetDerivative(i, 1) (the driver    *)
 (* runs all three).  The contract: the value is kept, the gradient is the unit    *)
@@ -282,7 +282,7 @@ Init == /\ fam \in Fams
 Next ==
   /\ More
   /\ \E r \in Receivers :
-       \/ \E i \in Vars : Activate(r, i)
+       \/ \E i \in Vars : Written(r) /\ Activate(r, i)
        \/ \E op \in UnOpsNow, a \in Operands(r) : Unary(op, r, a)
        \/ \E op \in BinOpsNow, a \in Operands(r), b \in Operands(r) : Binary(op, r, a, b)
        \/ \E q \in ParOpsNow, a \in Operands(r) : Param(q[1], q[2], q[3], r, a)
